@@ -295,6 +295,10 @@ func rewriteFile(in, out, dir string, hookDirs, knobDirs map[string]string) erro
 					list[i] = sw
 					needSimrt = true
 					st.selects++
+				} else if sw := rewriteSelectX(x); sw != nil {
+					list[i] = sw
+					needSimrt = true
+					st.selects++
 				} else {
 					st.selectsLeft++
 					fmt.Fprintf(os.Stderr, "rewrite: note: %s: select statement left alone (not receive-only)\n", fset.Position(x.Pos()))
@@ -436,6 +440,108 @@ func rewriteSelect(s *ast.SelectStmt) ast.Stmt {
 	}
 	return &ast.SwitchStmt{
 		Tag:  &ast.CallExpr{Fun: sel("simrt", "Select"), Args: chans},
+		Body: &ast.BlockStmt{List: clauses},
+	}
+}
+
+// rewriteSelectX: the general form (rule 9). Clauses may receive with or
+// without assignment, send, or be the default:
+//
+//	switch verifI, verifV, verifOK := simrt.SelectX(hasDefault, cases...); simrt.Idx(verifI, verifV, verifOK) {
+//	case 0: v, ok := simrt.As(ch, verifV), verifOK; body
+//	case 1: body            // a send case
+//	case -1: default body
+//	}
+//
+// The channel expression of an assigning receive is evaluated twice (once for
+// the case, once for the type of the value), so only identifiers and field
+// selections are accepted there.
+func rewriteSelectX(s *ast.SelectStmt) ast.Stmt {
+	simple := func(e ast.Expr) bool {
+		for {
+			switch x := e.(type) {
+			case *ast.Ident:
+				return true
+			case *ast.SelectorExpr:
+				e = x.X
+			case *ast.ParenExpr:
+				e = x.X
+			default:
+				return false
+			}
+		}
+	}
+	recvOf := func(e ast.Expr) ast.Expr {
+		for {
+			if p, ok := e.(*ast.ParenExpr); ok {
+				e = p.X
+				continue
+			}
+			break
+		}
+		if ue, ok := e.(*ast.UnaryExpr); ok && ue.Op == token.ARROW {
+			return ue.X
+		}
+		return nil
+	}
+	var cases []ast.Expr
+	var clauses []ast.Stmt
+	hasDefault := "false"
+	idx := 0
+	vI, vV, vOK := ast.NewIdent("verifI"), ast.NewIdent("verifV"), ast.NewIdent("verifOK")
+	for _, c := range s.Body.List {
+		cc := c.(*ast.CommClause)
+		if cc.Comm == nil {
+			hasDefault = "true"
+			clauses = append(clauses, &ast.CaseClause{List: []ast.Expr{&ast.UnaryExpr{Op: token.SUB, X: &ast.BasicLit{Kind: token.INT, Value: "1"}}}, Body: cc.Body})
+			continue
+		}
+		body := cc.Body
+		switch cm := cc.Comm.(type) {
+		case *ast.ExprStmt:
+			ch := recvOf(cm.X)
+			if ch == nil {
+				return nil
+			}
+			cases = append(cases, &ast.CallExpr{Fun: sel("simrt", "RecvCase"), Args: []ast.Expr{ch}})
+		case *ast.AssignStmt:
+			if len(cm.Rhs) != 1 || len(cm.Lhs) < 1 || len(cm.Lhs) > 2 {
+				return nil
+			}
+			ch := recvOf(cm.Rhs[0])
+			if ch == nil || !simple(ch) {
+				return nil
+			}
+			cases = append(cases, &ast.CallExpr{Fun: sel("simrt", "RecvCase"), Args: []ast.Expr{ch}})
+			rhs := []ast.Expr{&ast.CallExpr{Fun: sel("simrt", "As"), Args: []ast.Expr{ch, vV}}}
+			if len(cm.Lhs) == 2 {
+				rhs = append(rhs, vOK)
+			}
+			asg := &ast.AssignStmt{Lhs: cm.Lhs, Tok: cm.Tok, Rhs: rhs}
+			body = append([]ast.Stmt{asg}, body...)
+			if cm.Tok == token.DEFINE {
+				// the variables may be unused in the body, which is legal in a select clause
+				for _, l := range cm.Lhs {
+					if id, ok := l.(*ast.Ident); ok && id.Name != "_" {
+						body = append(body[:1:1], append([]ast.Stmt{&ast.AssignStmt{Lhs: []ast.Expr{ast.NewIdent("_")}, Tok: token.ASSIGN, Rhs: []ast.Expr{ast.NewIdent(id.Name)}}}, body[1:]...)...)
+					}
+				}
+			}
+		case *ast.SendStmt:
+			cases = append(cases, &ast.CallExpr{Fun: sel("simrt", "SendCase"), Args: []ast.Expr{cm.Chan, cm.Value}})
+		default:
+			return nil
+		}
+		clauses = append(clauses, &ast.CaseClause{List: []ast.Expr{&ast.BasicLit{Kind: token.INT, Value: strconv.Itoa(idx)}}, Body: body})
+		idx++
+	}
+	if len(cases) == 0 {
+		return nil
+	}
+	args := append([]ast.Expr{ast.NewIdent(hasDefault)}, cases...)
+	return &ast.SwitchStmt{
+		Init: &ast.AssignStmt{Lhs: []ast.Expr{vI, vV, vOK}, Tok: token.DEFINE, Rhs: []ast.Expr{&ast.CallExpr{Fun: sel("simrt", "SelectX"), Args: args}}},
+		Tag:  &ast.CallExpr{Fun: sel("simrt", "Idx"), Args: []ast.Expr{vI, vV, vOK}},
 		Body: &ast.BlockStmt{List: clauses},
 	}
 }
